@@ -642,12 +642,56 @@ def error_only(f, fg, node, depth=0):
     def raw(nm):
         return [n for n in ast.walk(f.node) if isinstance(n, ast.Assign) and any(
             isinstance(t, ast.Name) and t.id == nm for t in n.targets)]
+    def sentinel_names(a):
+        """Names whose being None / false the atom requires: `x is None`, `not x`, and - for a
+        list of results - `any(r is None for r in L)` / `None in L`, which says so of what was
+        appended to L."""
+        if ((a[0] == "is" and len(a) > 2 and a[2] is None) or a[0] == "falsy") and \
+                isinstance(a[1], str) and a[1].isidentifier():
+            return [a[1]]
+        if a[0] == "truthy" and isinstance(a[1], str) and a[1].startswith("any("):
+            try:
+                e = ast.parse(a[1], mode="eval").body
+            except SyntaxError:
+                return []
+            g = e.args[0] if e.args and isinstance(e.args[0], (ast.GeneratorExp, ast.ListComp)) \
+                else None
+            if g is None or len(g.generators) != 1 or g.generators[0].ifs:
+                return []
+            gen = g.generators[0]
+            c = g.elt
+            if isinstance(c, ast.Compare) and len(c.ops) == 1 and isinstance(c.ops[0], ast.Is) \
+                    and isinstance(c.comparators[0], ast.Constant) and \
+                    c.comparators[0].value is None and isinstance(c.left, ast.Name) and \
+                    isinstance(gen.target, ast.Name) and c.left.id == gen.target.id and \
+                    isinstance(gen.iter, ast.Name):
+                lst = gen.iter.id
+                out_ = []
+                for call in ast.walk(f.node):
+                    if isinstance(call, ast.Call) and isinstance(call.func, ast.Attribute) and \
+                            call.func.attr in ("append", "extend", "insert") and isinstance(
+                                call.func.value, ast.Name) and call.func.value.id == lst:
+                        if call.func.attr != "append" or not call.args or not isinstance(
+                                call.args[0], ast.Name):
+                            return []
+                        out_.append(call.args[0].id)
+                return out_
+        return []
+
     for a in fg.atoms(node):
-        if not ((a[0] == "is" and len(a) > 2 and a[2] is None) or a[0] == "falsy"):
+        names_ = sentinel_names(a)
+        if not names_:
             continue
-        nm = a[1]
-        if not (isinstance(nm, str) and nm.isidentifier()):
-            continue
+        verdicts = []
+        for nm in names_:
+            verdicts.append(_sentinel_is_error_only(f, fg, nm, raw, depth))
+        if verdicts and all(verdicts):
+            return True
+    return False
+
+
+def _sentinel_is_error_only(f, fg, nm, raw, depth):
+    if True:
         ds = raw(nm)
         for _ in range(3):
             if len(ds) == 1 and isinstance(ds[0].value, ast.Name):
@@ -704,17 +748,38 @@ def rule_F6(ctx, entries=("conducting.WorkflowConductor.request_workflow_status"
                 if any(w.path[:len(x)] == x and w.guards and w.guards <= e.guards
                        for x in exempt_paths for w in effs):
                     continue
-                bad.setdefault((dotted(e.path), e.op), e)
+                bad.setdefault((dotted(e.path), e.op, _via(f, top)), e)
             inst = (q, norm_src(r))
             if not bad:
                 res.holds(inst)
-            for (p, op), e in sorted(bad.items()):
-                res.violated((q, norm_src(r), p, op), Finding(
-                    "F6", f.file, q, "%s precedes %s" % (p, norm_src(r)),
-                    "%s of %s (in %s) may execute before the request is rejected by '%s'" % (
-                        op, p, e.func.qualname, norm_src(r)),
+            for (p, op, via), e in sorted(bad.items()):
+                res.violated((q, norm_src(r), p, op, via), Finding(
+                    "F6", f.file, q, "%s precedes %s [via %s]" % (p, norm_src(r), via),
+                    "%s of %s (in %s, reached through %s) may execute before the request is "
+                    "rejected by '%s'" % (op, p, e.func.qualname, via, norm_src(r)),
                     line=r.lineno, chain=e.chain()))
     return res
+
+
+def _via(f, top):
+    """The statement of the entry point through which a write happens, as a stable phrase:
+    for a loop its iterated expression (which tasks are visited), else the statement."""
+    st = top
+    while st is not None and getattr(st, "_parent", None) is not f.node:
+        st = getattr(st, "_parent", None)
+    st = st if st is not None else top
+    from sa.core import untag
+    if isinstance(st, ast.For):
+        return untag(unparse(st.iter))
+    if isinstance(st, ast.If):
+        # the innermost loop / statement holding the write inside the conditional
+        inner = top
+        while inner is not None and inner is not st and not isinstance(inner, ast.For):
+            inner = getattr(inner, "_parent", None)
+        if isinstance(inner, ast.For):
+            return untag(unparse(inner.iter))
+    txt = untag(norm_src(st))
+    return txt if len(txt) <= 90 else txt[:87] + "..."
 
 
 def _may_precede(f, a, b):
@@ -796,7 +861,9 @@ def rule_F7(ctx):
             # the check must run whenever the assignment made the workflow succeeded: some
             # alternative of its guard consists only of conditions that hold for status ==
             # succeeded, of the assignment's own preconditions, and of 'status changed'
-            pre = fg.atoms(e.node)
+            pre = list(fg.atoms(e.node))
+            for alt_ in expand_alternatives(e.func, fg, pre):
+                pre.extend(a_ for a_ in alt_ if a_ not in pre)
             # what denotes the workflow status here: the assigned attribute and the value
             tgt_txt = {unparse(t) for t in getattr(e.node, "targets", [])}
             if isinstance(v, ast.Name):
